@@ -232,7 +232,7 @@ class CartesianGrid(StructuredGrid):
         ]
         newOffsetX = self._offset[0] * xw / xwOld
         newOffsetY = self._offset[1] * yw / ywOld
-        self._offset = np.array((newOffsetX, newOffsetY, 0.0))
+        self._offset = np.array((newOffsetX, newOffsetY, self._offset[2]))
 
     def getSymmetricEquivalents(self, indices):
         symmetry = self.symmetry  # construct the symmetry object once up top
